@@ -28,7 +28,7 @@ import (
 )
 
 type opts struct {
-	prop, tier, audit, scratch, verif, repo, file, mutantNote string
+	prop, tier, audit, scratch, verif, repo, file, out string
 	seed                                                      uint64
 	workers, w                                                int
 	budget                                                    float64 // wall seconds for the exploration phase
@@ -46,6 +46,7 @@ func parse(args []string) *opts {
 	fs.StringVar(&o.scratch, "scratch", os.TempDir(), "scratch dir")
 	fs.StringVar(&o.verif, "verif", "/verif", "verif dir")
 	fs.StringVar(&o.repo, "repo", "", "instrumented module root")
+	fs.StringVar(&o.out, "out", "", "where evidence/ and replays/ go (default: the verif dir)")
 	fs.StringVar(&o.file, "file", "", "replay file")
 	fs.IntVar(&o.workers, "workers", runtime.NumCPU(), "worker processes")
 	fs.IntVar(&o.w, "w", 0, "worker index")
@@ -53,6 +54,9 @@ func parse(args []string) *opts {
 	fs.IntVar(&o.maxCases, "max-cases", 0, "cap on cases (0: checker default)")
 	fs.BoolVar(&o.noShrink, "no-shrink", false, "do not minimise violations")
 	fs.Parse(args)
+	if o.out == "" {
+		o.out = o.verif
+	}
 	return o
 }
 
@@ -208,7 +212,7 @@ func tierBudget(o *opts) float64 {
 
 func selfArgs(o *opts, sub string, extra ...string) []string {
 	a := []string{sub, "-prop", o.prop, "-tier", o.tier, "-seed", fmt.Sprint(o.seed), "-audit", o.audit,
-		"-scratch", o.scratch, "-verif", o.verif, "-repo", o.repo}
+		"-scratch", o.scratch, "-verif", o.verif, "-repo", o.repo, "-out", o.out}
 	return append(a, extra...)
 }
 
@@ -312,7 +316,7 @@ func runCtl(o *opts) {
 		groups[k] = &group{fv: v, count: 1}
 		order = append(order, k)
 	}
-	os.MkdirAll(filepath.Join(o.verif, "replays"), 0o755)
+	os.MkdirAll(filepath.Join(o.out, "replays"), 0o755)
 	exit := 0
 	reported := 0
 	knownLines := map[string]bool{}
@@ -338,7 +342,7 @@ func runCtl(o *opts) {
 		v = res.Viol
 		rf := &replayFile{Property: o.prop, Tier: o.tier, Seed: o.seed, Input: in, Viol: v, LogHash: res.LogHash, Shrunk: shrunk, Steps: steps}
 		name := fmt.Sprintf("%s-%d-%d-%s.json", o.prop, o.seed, in.Index, sanitize(v.Class))
-		path := filepath.Join(o.verif, "replays", name)
+		path := filepath.Join(o.out, "replays", name)
 		b, _ := json.MarshalIndent(rf, "", " ")
 		if err := os.WriteFile(path, b, 0o644); err != nil {
 			die("write replay: %v", err)
@@ -408,9 +412,9 @@ func runCtl(o *opts) {
 		"wall_s":      wall,
 		"violations":  reported,
 	}
-	os.MkdirAll(filepath.Join(o.verif, "evidence"), 0o755)
+	os.MkdirAll(filepath.Join(o.out, "evidence"), 0o755)
 	b, _ := json.MarshalIndent(ev, "", " ")
-	if err := os.WriteFile(filepath.Join(o.verif, "evidence", o.prop+".json"), b, 0o644); err != nil {
+	if err := os.WriteFile(filepath.Join(o.out, "evidence", o.prop+".json"), b, 0o644); err != nil {
 		die("write evidence: %v", err)
 	}
 	fmt.Printf("%s %s seed=%d: %d cases (%d planned%s), %d distinct non-trivial, %d violation groups (%d reported, %d known), %.1fs\n",
@@ -538,6 +542,13 @@ func main() {
 		runReplay(o)
 	case "hashes":
 		runHashes(o)
+	case "case":
+		ctx := loadCtx(o)
+		ch := props.Registry[o.prop]
+		in := ch.Gen(ctx, o.w)
+		res := ch.Exec(ctx, in)
+		b, _ := json.MarshalIndent(map[string]any{"input": in, "result": res}, "", " ")
+		fmt.Println(string(b))
 	case "list":
 		fmt.Println(strings.Join(props.IDs(), " "))
 	default:
